@@ -399,6 +399,7 @@ def evaluate_overlap(case, r):
         return r.ref_time(ref0.warmup_time)
     findings += lifecycle.check_stream(H, wtime)
     findings += lifecycle.check_balanced_at_end(H)
+    nested_bad = next((h[3] for h in H if h[0] == "nested" and h[3]), None)
     # initialize / cleanup admitted while the run thread is still active
     def admission_state(c):
         """run_state seen when the command made its own first state change
@@ -410,6 +411,11 @@ def evaluate_overlap(case, r):
         return c["before"][0]
     grace_fault = (r.det.n_fault_clock_jump > 0 or bool((case.get("sched") or {}).get("oversleep"))
                    or any(len(d) > 2 and d[2] and d[2] >= 0.9 for d in r.det.decisions))
+    if nested_bad and not grace_fault:
+        # (with stalls of more than a second the nested simulator's own grace
+        # periods expire: not judged)
+        findings.append(("nested-simulator", "a second simulator run from a callback of "
+                         "the first one: " + nested_bad))
     for c in cmds:
         if c["name"] not in ("initialize", "cleanup"):
             continue
